@@ -1,7 +1,127 @@
 import FormulaeModel.Driver.Base
-namespace FormulaeModel.Driver.C11
-open Lean FormulaeModel FormulaeModel.Driver
+import FormulaeModel.Model.Env
+import FormulaeModel.Model.EnvWiring
+import FormulaeModel.Spec.C11
+/-
+Driver ops of C11 (name resolution).
 
-def handle (_op : String) (_j : Json) : Option Json := none
+  {"op":"c11", "role":"arg"|"callee", "name":"zz", "segments":["mq","fn"]?,
+   "data":[[k,val]…], "var_names":[…], "builtins":[[k,val]…], "real_builtins":true|false,
+   "stack":[{"locals":[[k,val]…],"globals":[[k,val]…]}…],      -- as seen inside Environment.capture
+   "env":{"int":k} | {"environment":[ns…]} | "other",
+   "extra": null | [[k,val]…]}
+  val = {"t":tag, "a":[[k,val]…]?}        ns = {"dict":[[k,val]…]} | {"vld":[ns…]}
+
+  -> {"model": out, "model_documented": out, "spec": out | null, "frame": k | null}
+  out = {"ok": val} | {"err": class}
+
+`model` runs `Env.resolveArg/resolveCallee` under the wiring regenerated from the source
+(`Env.generatedWiring`; the documented one if the translator did not recognise the source
+shape, `Generated.envShapeOk = false`), `model_documented` under `Spec.C11.documentedWiring`; `spec` is
+`Spec.C11.expected` (defined for integer `env ≥ 0` only: the statement's quantifier).
+With `real_builtins` the registry scope is extended by one entry `builtin:<key>` per key of
+`Generated.builtinsKeys`.
+
+  {"op":"c11_tables"} -> the generated tables (for the harness' bookkeeping)
+-/
+namespace FormulaeModel.Driver.C11
+open Lean FormulaeModel FormulaeModel.Driver FormulaeModel.Env
+
+partial def valOfJson (j : Json) : Val :=
+  let attrs := (getArr j "a").filterMap (fun kv =>
+    match kv with
+    | .arr #[.str k, v] => some (k, valOfJson v)
+    | _ => none)
+  .obj (getStr j "t") attrs
+
+partial def valToJson : Val → Json
+  | .obj t attrs =>
+    if attrs.isEmpty then Json.mkObj [("t", t)]
+    else Json.mkObj [("t", t), ("a", Json.arr (attrs.map (fun (k, v) => Json.arr #[k, valToJson v])).toArray)]
+
+def scopeOfJson (l : List Json) : Scope :=
+  l.filterMap (fun kv =>
+    match kv with
+    | .arr #[.str k, v] => some (k, valOfJson v)
+    | _ => none)
+
+partial def nsOfJson (j : Json) : Ns :=
+  match j.getObjVal? "vld" with
+  | .ok (.arr a) => .vld (a.toList.map nsOfJson)
+  | _ => .dict (scopeOfJson (getArr j "dict"))
+
+def frameOfJson (j : Json) : Frame := ⟨scopeOfJson (getArr j "locals"), scopeOfJson (getArr j "globals")⟩
+
+def envArgOfJson (j : Json) : EnvArg :=
+  match j.getObjVal? "env" with
+  | .ok e =>
+    match e.getObjValAs? Int "int" with
+    | .ok k => .int k
+    | .error _ =>
+      match e.getObjVal? "environment" with
+      | .ok (.arr a) => .env ⟨a.toList.map nsOfJson⟩
+      | _ => .other
+  | .error _ => .other
+
+def outJson : Except Err Val → Json
+  | .ok v => Json.mkObj [("ok", valToJson v)]
+  | .error e => Json.mkObj [("err", e.className)]
+
+def outcomeJson : Spec.C11.Outcome → Json
+  | .value v => Json.mkObj [("ok", valToJson v)]
+  | .raises => Json.mkObj [("err", "raises")]
+
+def splitDots (s : String) : List String := s.splitOn "."
+
+def handle (op : String) (j : Json) : Option Json :=
+  match op with
+  | "c11" =>
+    let role := getStr j "role"
+    let name := getStr j "name"
+    let segments := match j.getObjVal? "segments" with
+      | .ok (.arr a) => a.toList.filterMap (fun x => match x with | .str s => some s | _ => none)
+      | _ => splitDots name
+    let real := getBool j "real_builtins" true
+    let builtins := scopeOfJson (getArr j "builtins") ++
+      (if real then Generated.builtinsKeys.map (fun k => (k, Val.const ("builtin:" ++ k))) else [])
+    let extra : Option Scope := match j.getObjVal? "extra" with
+      | .ok (.arr a) => some (scopeOfJson a.toList)
+      | _ => none
+    let stack := (getArr j "stack").map frameOfJson
+    let envArg := envArgOfJson j
+    let inp : Input := { data := scopeOfJson (getArr j "data"), varNames := strList j "var_names",
+                         builtins := builtins, stack := stack, envArg := envArg, extra := extra }
+    let run (W : Wiring) : Except Err Val :=
+      if role == "callee" then resolveCallee W inp segments else resolveArg W inp name
+    let spec : Json := match envArg with
+      | .int k =>
+        if k < 0 then Json.null else
+        outcomeJson (Spec.C11.expected (if role == "callee" then .callee else .argument)
+          inp.data builtins (stack.drop 2) k.toNat (Spec.C11.extraOf extra)
+          name segments)
+      | _ => Json.null
+    let frame : Json := match envArg with
+      | .int k => if k < 0 then Json.null else
+          (match Spec.C11.selectedFrame (stack.drop 2) k.toNat with
+           | some _ => (k.toNat : Json) | none => Json.null)
+      | _ => Json.null
+    -- an unrecognised source shape leaves holes in the regenerated wiring (the tie is then broken
+    -- anyway): the correspondence falls back to the documented wiring
+    let Wm := if Generated.envShapeOk then Env.generatedWiring else Spec.C11.documentedWiring
+    some (Json.mkObj [("model", outJson (run Wm)),
+                      ("model_documented", outJson (run Spec.C11.documentedWiring)),
+                      ("spec", spec), ("frame", frame)])
+  | "c11_tables" =>
+    some (Json.mkObj [("reference", (Generated.captureReference : Json)),
+                      ("loop_extra", (Generated.captureLoopExtra : Json)),
+                      ("frame_scopes", jStrs Generated.frameScopes),
+                      ("call_env_order", jStrs Generated.callEnvOrder),
+                      ("lazy_variable_order", jStrs Generated.lazyVariableOrder),
+                      ("leading_empty", Generated.varLookupLeadingEmpty),
+                      ("outer_appended", Generated.outerNamespaceAppended),
+                      ("builtins_merge", jStrs Generated.builtinsMergeOrder),
+                      ("builtins_keys", jStrs Generated.builtinsKeys),
+                      ("shape_ok", Generated.envShapeOk)])
+  | _ => none
 
 end FormulaeModel.Driver.C11
